@@ -278,7 +278,10 @@ def run_replays(mod, pid, ctx, known):
     violations = []
     known_lines = []
     count = 0
-    kf = {os.path.normpath(os.path.join(VERIF, f["replay"])): f for f in known.for_property(pid) if f.get("replay")}
+    kf = {}
+    for f in known.for_property(pid):
+        if f.get("replay"):
+            kf.setdefault(os.path.normpath(os.path.join(VERIF, f["replay"])), []).append(f)
     if not os.path.isdir(d):
         return violations, known_lines, count
     for name in sorted(os.listdir(d)):
@@ -289,15 +292,16 @@ def run_replays(mod, pid, ctx, known):
         case = dec(rec["case"])
         o = mod.run_case(case, ctx)
         count += 1
-        entry = kf.get(os.path.normpath(path))
+        entries = kf.get(os.path.normpath(path), [])
         if o.failure is not None:
-            if entry is not None and entry.get("sig") == o.failure.sig:
-                known_lines.append("KNOWN-FINDING: property=%s %s" % (pid, entry["text"]))
+            match = [e for e in entries if e.get("sig") == o.failure.sig]
+            if match:
+                known_lines.append("KNOWN-FINDING: property=%s %s" % (pid, match[0]["text"]))
             else:
                 violations.append((o.failure.sig, o.failure.detail, path))
         else:
-            if entry is not None:
-                known_lines.append("NOTE: known finding %s no longer reproduces from %s" % (entry.get("sig"), name))
+            if entries:
+                known_lines.append("NOTE: known finding %s no longer reproduces from %s" % (entries[0].get("sig"), name))
     return violations, known_lines, count
 
 
